@@ -19,7 +19,10 @@ import re
 from .core import VERIF
 
 THRESHOLD = 9
-SHAPE_FREE = ("R05.",)                       # sound may-analysis over every path: its alarms do not depend on recognising a shape
+SHAPE_FREE = ()
+THRESHOLD_RANGE = 10                         # R05.*: "not provable" alarms of the range / contract analysis lose precision on rewritten loops sooner than
+                                             # the shape rules do (every confirmed memory-safety change and every reverted fix is at distance <= 9, most rewrites
+                                             # that defeat the analysis at >= 10); the kernel file a call-site contract comes from counts as well
 SHAPE_FREE_EXACT = {"R01.g", "R01.h", "R02.d", "R02.e"}
 SHAPE_FREE_SUFFIX = (".p", ".rc")
 
@@ -131,7 +134,16 @@ def restructured(repo):
             tot[f] = tot.get(f, 0) + d
     out = {f: d for f, d in tot.items() if d >= THRESHOLD}
     _CACHE[repo] = out
+    _ALL[repo] = tot
     return out
+
+
+_ALL = {}
+
+
+def all_distances(repo):
+    restructured(repo)
+    return _ALL.get(repo, {})
 
 
 def shape_free(rule):
